@@ -2,6 +2,7 @@ package main
 
 import (
 	"fmt"
+	"os"
 
 	"golang.org/x/tools/go/ssa"
 )
@@ -240,7 +241,10 @@ func (e *Exec) tryMergeStates(a, b *State) (m *State, cond *Term, ok bool) {
 	}
 	defer func() {
 		if r := recover(); r != nil {
-			if _, isMF := r.(mergeFail); isMF {
+			if mf, isMF := r.(mergeFail); isMF {
+				if debugTrace {
+					fmt.Fprintf(os.Stderr, "merge of states failed: %s\n", mf.why)
+				}
 				m, cond, ok = nil, nil, false
 				return
 			}
@@ -338,7 +342,10 @@ func (e *Exec) tryMergeFrames(c *Term, a, b *Frame) (f *Frame, ok bool) {
 	}
 	defer func() {
 		if r := recover(); r != nil {
-			if _, isMF := r.(mergeFail); isMF {
+			if mf, isMF := r.(mergeFail); isMF {
+				if debugTrace {
+					fmt.Fprintf(os.Stderr, "merge of frames failed: %s\n", mf.why)
+				}
 				f, ok = nil, false
 				return
 			}
